@@ -98,6 +98,7 @@ func (w *World) decode(dst *roaring.Bitmap, data []byte, e int, seed uint64, pro
 		rd := &simio.ChunkedReader{Data: append(append([]byte(nil), data...), sentinel...), Sizes: chunkSizes(seed), ErrAt: -1, EOFWith: r.Bool()}
 		p, err = dst.ReadFrom(rd)
 		pulled = rd.Pulled
+		scribble(rd.Data) // the stream's storage is gone once the call has returned
 	case 1, 2:
 		buf := data
 		if r.Chance(1, 3) {
@@ -111,7 +112,10 @@ func (w *World) decode(dst *roaring.Bitmap, data []byte, e int, seed uint64, pro
 			p, err = dst.FromUnsafeBytes(reg.Bytes())
 		}
 	case 3:
-		err = dst.UnmarshalBinary(data)
+		// a copying entry point: the caller reuses its buffer as soon as the call has returned
+		tmp := append([]byte(nil), data...)
+		err = dst.UnmarshalBinary(tmp)
+		scribble(tmp)
 		p = -1
 	case 4:
 		txt := base64.StdEncoding.EncodeToString(data)
@@ -143,6 +147,14 @@ func (w *World) decode(dst *roaring.Bitmap, data []byte, e int, seed uint64, pro
 		p = -1
 	}
 	return
+}
+
+// scribble overwrites a transient buffer handed to a copying decoder (ReadFrom's stream,
+// UnmarshalBinary's argument): only the zero-copy entry points may keep referring to it.
+func scribble(b []byte) {
+	for i := range b {
+		b[i] = ^b[i] ^ 0x5A
+	}
 }
 
 func (w *World) disk(entry, fault, region, outcome string) {
